@@ -1,7 +1,7 @@
 (* C19 — A configuration accepted at start-up cannot crash or corrupt replies later.
    setup4/setup6 model every stateless plugin's setup function over ANY argument vector (any
    strings, any arity) and ANY answers of the text parsers (oracles O). *)
-From Verif Require Import Base BaseProofs Net NetProofs Msg4 Msg6 Chain ChainProofs Server4 Server4Proofs Server6 Server6Proofs Plugins4 Plugins6 Setup PluginRun PluginProofs PluginSpecs PluginExamples Opt4Codec Opt4Proofs Msg4Codec Msg4CodecProofs PrefixPlugin PrefixProofs PrefixTheorems Msg6Codec Msg6CodecProofs.
+From Verif Require Import Base BaseProofs Net NetProofs Msg4 Msg6 Chain ChainProofs Server4 Server4Proofs Server6 Server6Proofs Plugins4 Plugins6 Setup PluginRun PluginProofs PluginSpecs PluginExamples Opt4Codec Opt4Proofs Msg4Codec Msg4CodecProofs PrefixPlugin PrefixProofs PrefixTheorems Msg6Codec Msg6CodecProofs Skel Skeleton SkelProofs SkelGen.
 Open Scope N_scope.
 
 Theorem setup4_ok_handler_safe :
@@ -71,6 +71,20 @@ Theorem dhcp6_wire_roundtrip :
   fits (p_layers p) (p_inner p) -> enc_pkt6 p = Some b -> decode6 b = Some p.
 Proof. exact (@Msg6CodecProofs.decode6_encode6). Qed.
 Print Assumptions dhcp6_wire_roundtrip.
+
+Theorem handlers_release_their_locks :
+  forall f : fskel,
+  In f all_skeletons ->
+  forall (tr : list ev) (o : outcome),
+  exec (fs_body f) tr o ->
+  exists st' : lst, tr_run (init_of f) tr = Some st' /\ o <> Brk /\ ret_ok st' = true.
+Proof. exact (@SkelGen.every_path_well_locked). Qed.
+Print Assumptions handlers_release_their_locks.
+
+Theorem handlers_cannot_lock_themselves_out :
+  lock_order_ok all_skeletons = true.
+Proof. exact (@SkelGen.skeletons_lock_order). Qed.
+Print Assumptions handlers_cannot_lock_themselves_out.
 
 (* Non-vacuity (proofs/PluginExamples.v): accepted configurations exist *)
 Example hypotheses_satisfiable :
